@@ -647,6 +647,9 @@ func (e *Engine) fresh(tag string, w int) *Term {
 	if fm := e.opts.ForcedModel; fm != nil {
 		return BV(w, fm[name])
 	}
+	if old, ok := e.varByName[name]; ok && old.W != w {
+		panic(pathEnd{kind: endUnsupported, msg: fmt.Sprintf("vf tag %q is used with two different widths (%d and %d bits) on different paths; use distinct tags", tag, old.W, w)})
+	}
 	v := Var(name, w)
 	if _, ok := e.varByName[name]; !ok {
 		e.varByName[name] = v
